@@ -470,6 +470,8 @@ fn alphabet() -> Vec<Op> {
         v.push(Op::AddXObject(p));
         v.push(Op::AddGState(p));
     }
+    v.push(Op::ChangeContent(0, 3));
+    v.push(Op::AddContents(1, 4));
     v.push(Op::AddToContent(0));
     v.push(Op::AddContents(1, 2));
     v.push(Op::Outline(1));
@@ -505,6 +507,9 @@ fn payload(kind: u8, counter: u32) -> Vec<u8> {
     match kind {
         0 => format!("BT ({}) Tj ET", counter).into_bytes(),
         1 => format!("q {} 0 0 1 0 0 cm Q % a longer replacement content {} that can be compressed well: aaaaaaaaaaaaaaaaaaaaaaaaaaaaaaaaaaaaaaaaaaaaaaaaaaaaaaaaaaaaaaaaaaaaaaaaaaaa", counter, counter).into_bytes(),
+        // several KiB of one repeated operator line: deflates far better than 100:1 (and 1000:1 for the longer one)
+        3 => format!("% {}\n{}", counter, "0 0 m 10 10 l S\n".repeat(700)).into_bytes(),
+        4 => format!("% {}\n{}", counter, "q Q\n".repeat(40_000)).into_bytes(),
         _ => vec![],
     }
 }
